@@ -104,6 +104,12 @@ def build_worker(tmp, flavour):
         cmd += ["-tags", "simrt"]
     if flavour == "race":
         cmd += ["-tags", "simrt simrace"]
+    if REPO != "/repo":
+        # another tree (VERIF_REPO): the harness module's replace directive points there
+        mod = open(os.path.join(VERIF, "sim", "go.mod")).read().replace("=> /repo", "=> " + REPO)
+        open(os.path.join(tmp, "go.mod"), "w").write(mod)
+        shutil.copy(os.path.join(VERIF, "sim", "go.sum"), os.path.join(tmp, "go.sum"))
+        cmd += ["-modfile", os.path.join(tmp, "go.mod")]
     cmd += ["./worlds"]
     t0 = time.time()
     r = subprocess.run(cmd, cwd=os.path.join(VERIF, "sim"), capture_output=True, text=True, env=ENV)
@@ -337,7 +343,9 @@ def run_check(prop, tier):
                         sums.append(json.load(open(o)))
                     except Exception as e:
                         harness_trouble.append("unreadable summary %s: %s" % (o, e))
-        if not sums:
+        if not sums and not death_violations:
+            # (every shard can die before its first summary when most runs kill the process - e.g. a
+            # stack overflow in a cascade; the confirmed deaths are then the whole verdict)
             die("no worker summary was produced; " + "; ".join(harness_trouble)[:3000])
         runs = sum(x["runs"] for x in sums)
         hashes = set()
@@ -348,7 +356,7 @@ def run_check(prop, tier):
         violations = []
         notes = []
         sim_ns = 0
-        completed = all(x.get("completed") for x in sums)
+        completed = bool(sums) and all(x.get("completed") for x in sums)
         exhaustive = {}
         for x in sums:
             hashes.update(x.get("nontrivial_hashes") or [])
